@@ -286,7 +286,33 @@ def r8_buffered_sinks_are_flushed(ctx):
     ctx.ob("R08.8", "relays:no-unflushed-buffered-writer", True, "", "%d buffered writers in relay code" % n, nontrivial=False)
 
 
+def r9_orderly_socket_close(ctx):
+    """sockets are closed in the orderly way (FIN after the queued data): nothing switches on a zero linger time, which turns every
+    drop of a socket into a reset — the peer sees ConnectionReset instead of end-of-stream, and data still queued is discarded"""
+    n = 0
+    bad = []
+    for key, body in ctx.P.scan():
+        if key.startswith("anytls_"):
+            continue
+        for c in body.calls():
+            last = (c.norm or "").split("::")[-1]
+            if last in ("set_nodelay", "set_keepalive", "set_tcp_keepalive", "set_linger", "set_reuseaddr", "set_recv_buffer_size", "set_send_buffer_size"):
+                n += 1
+            if last in ("set_linger", "set_linger_tcp"):
+                o = ctx.origins(body)
+                v = o.of_operand(c.args[1]) if len(c.args) > 1 else None
+                none = isinstance(v, tuple) and v and v[0] == "agg" and len(v) > 2 and v[2] == "None"
+                if not none:
+                    bad.append(c)
+    ctx.ob("R08.9", "sockets:no-reset-on-close", not bad, bad[0].site if bad else "", "%d socket option calls, none sets a linger time" % n if not bad else
+           "`%s` sets SO_LINGER on the crate's sockets: with a zero (or short) linger time dropping a socket sends a reset instead of end-of-stream after the queued data — a peer that half-closed and is still reading gets "
+           "ConnectionReset, and an upload still in the send queue is cut short" % bad[0].norm.split("::")[-1])
+
+
 def run(ctx):
+    r9_orderly_socket_close(ctx)
+    from . import C02 as _C02t
+    _C02t.r1_table_keys(ctx)          # only the frame dispatcher, open_stream and close() touch the stream tables: a front-end cannot drop a stream's inbound queue when one direction ends
     from . import effects
     effects.check_property(ctx, "C08")    # R08.E: no operation on shared protocol state outside the reviewed table
     from . import C09
